@@ -3,6 +3,7 @@
   Property theorems only (helper lemmas: Proofs/Lemmas/Cycles.lean).
 -/
 import Proofs.Lemmas.Cycles
+import Proofs.Lemmas.CyclesSlices
 
 namespace C13
 open Cycles
@@ -88,9 +89,61 @@ theorem container_flag_agrees (g : GoodCfg) (step : Rat) (ph : List Rat)
     · simp [hg]; exact ih _ _
     · simp [hg]; exact ih _ _
 
+/-- **Bridge to the public entry point**: `get_cycle_vector(phase, return_good=True)` without a mask
+    (model: `getCycleVector g step true ph (all-true mask)`, whose code-shaped form `cvIdx` is what the
+    driver runs) is the painted partition whose acceptance test is `is_good` alone — the right-hand side of
+    `container_flag_agrees`. -/
+theorem getCycleVector_good_eq (g : GoodCfg) (step : Rat) (ph : List Rat) :
+    getCycleVector g step true ph (List.replicate ph.length true) = paint (cvSegs (wrapAt step) (isGood g) ph) ∧
+    cvIdx (wrapAt step) (isGood g) ph = paint (cvSegs (wrapAt step) (isGood g) ph) := by
+  refine ⟨?_, cvIdx_eq_paint _ _ _⟩
+  rw [getCycleVector_nomask]
+  simp
+
+/-- **The container flag agrees with `get_cycle_vector(return_good=True)`, sample by sample.**  Let sample
+    p carry label i in the all-cycles vector `get_cycle_vector(phase, return_good=False)` (so p lies in the
+    i-th cycle of the all-cycles partition).  Then the container's quality flag of cycle i is set if and
+    only if sample p is labelled (label ≥ 0) in `get_cycle_vector(phase, return_good=True)` — same phase,
+    same step and edge tolerance, no mask. -/
+theorem container_flag_agrees_getCycleVector (g : GoodCfg) (step : Rat) (ph : List Rat) (p i : Nat)
+    (hp : (getCycleVector g step false ph (List.replicate ph.length true))[p]? = some (i : Int)) :
+    (containerIsGood g step ph)[i]? = some true ↔
+      ∃ l, (getCycleVector g step true ph (List.replicate ph.length true))[p]? = some l ∧ 0 ≤ l := by
+  rw [(getCycleVector_good_eq g step ph).1]
+  rw [getCycleVector_nomask] at hp
+  simp only [Bool.not_false, Bool.true_or] at hp
+  unfold containerIsGood
+  unfold cvSegs at hp ⊢
+  simp only [] at hp ⊢
+  by_cases h1 : (runsBy (wrapAt step) ph).length ≤ 1
+  · -- no wrap: no sample carries a label
+    simp only [h1, ite_true] at hp
+    have : ((i : Nat) : Int) ∈ paint ((runsBy (wrapAt step) ph).map fun r => (r, (none : Option Nat))) :=
+      List.mem_of_getElem? hp
+    obtain ⟨s, hs, hl⟩ := mem_paint this
+    obtain ⟨r, _, rfl⟩ := List.mem_map.mp hs
+    simp [labelInt] at hl
+  · simp only [h1, ite_false] at hp ⊢
+    have hmap : ((labelRuns (fun _ => true) 0 (runsBy (wrapAt step) ph)).filter (·.2.isSome)).map (fun s => isGood g s.1)
+        = (runsBy (wrapAt step) ph).map (isGood g) := by
+      have hall : ∀ s ∈ labelRuns (fun _ => true) 0 (runsBy (wrapAt step) ph), s.2.isSome = true :=
+        fun s hs => (labelRuns_label_iff _ _ _ s hs).mpr rfl
+      rw [List.filter_eq_self.mpr hall]
+      have := congrArg (List.map (isGood g)) (labelRuns_runs (fun _ => true) 0 (runsBy (wrapAt step) ph))
+      rw [List.map_map] at this
+      exact this
+    rw [hmap]
+    exact paint_labelRuns_sample (isGood g) (runsBy (wrapAt step) ph) 0 0 p i (by simpa using hp)
+
 /-! Non-vacuity -/
 example : isGood { edge := 1/4, twopi := 6, endlo := 23/4 } [1/8, 3, 47/8] = true := by
   rw [isGood_spec]; exact ⟨1/8, 47/8, rfl, rfl, by decide +kernel, by decide +kernel, by decide +kernel,
     by decide +kernel, by decide +kernel⟩
 
+-- three wrap-delimited segments, the middle one fails the end criterion: sample 3 lies in cycle 1 of the
+-- all-cycles partition (the hypothesis of `container_flag_agrees_getCycleVector` is satisfiable)
+example : (getCycleVector { edge := 1/4, twopi := 6, endlo := 23/4 } 4 false [1/8, 3, 47/8, 1/8, 5, 1/8, 3, 47/8]
+    (List.replicate 8 true))[3]? = some ((1 : Nat) : Int) := by decide +kernel
+example : getCycleVector { edge := 1/4, twopi := 6, endlo := 23/4 } 4 true [1/8, 3, 47/8, 1/8, 5, 1/8, 3, 47/8]
+    (List.replicate 8 true) = [0, 0, 0, -1, -1, 1, 1, 1] := by decide +kernel
 end C13
